@@ -244,9 +244,16 @@ def exception_guarded_parse_statement(prog, PG, rep, b, h, L):
     if len(sites) != 1:
         return False
     site = sites[0]
-    # (a) with that call block as witness no unwitnessed cycle remains
-    if bfs_cycle(b, h, L, set(W) | {site.bb}) is not None:
-        return False
+    # (a) with that call block as witness no unwitnessed cycle remains; otherwise report the *other* cycle
+    other = bfs_cycle(b, h, L, set(W) | {site.bb})
+    if other is not None:
+        calls, lines = describe_path(b, other)
+        rep.fail(R, "loop:%s:%s" % (short(b.npath), ">".join(calls)),
+                 "loop in %s can cycle without progress: path through lines %s calling [%s] (no token consumed, no context ended)"
+                 % (short(b.npath), sorted(set(lines)), ", ".join(calls)),
+                 where="%s:%d" % (b.file, max(lines) if lines else b.line), instance={"body": short(b.npath), "loop_header": "bb%d" % h},
+                 cycle_blocks=other, calls=calls, lines=lines)
+        return True
     # (b) guards dominate the site, nothing impure in between
     gf = guard_facts_at(prog, b, site.bb)
     if gf.get("token") != "Some" or gf.get("ctx") != "None":
